@@ -205,6 +205,11 @@ example : (run init demoReject).ackQ = [7] ∧ (run init demoReject).written = [
 
 /-! ## where the source opens the gate (regenerated from `reader.go` on every run) -/
 
+/-- **first_message_once.** The model judges *the first message* of a connection: `Connect` calls
+`checkInitialMessage` exactly once, not in a loop — a second read after a failed one would start in the middle of the
+stream and take whatever comes later for the first message. -/
+theorem first_message_once : Gen.initCheckSites = [("Client.Connect", false)] := by decide
+
 /-- **gate_sites.** The LTS opens `ready` in two actions only: `connRejectReady` (no writer goroutine exists) and
 `connReady` (negotiation has succeeded).  The source agrees: every `close(c.ready)` that comes after the writer
 goroutine was started comes after the call of negotiate() and is not on an error path, and `ready` is closed nowhere
